@@ -576,7 +576,7 @@ def decompress_destripe_cbin(
 
             # add back sync trace and save
             chunk = np.r_[chunk, _sr[first_s:last_s, ncv:].T].T
-            chunk = chunk * mute_saturation[:, np.newaxis]
+            chunk[:, :ncv] = chunk[:, :ncv] * mute_saturation[:, np.newaxis]
 
             # Compute rms - we get it before applying the whitening
             if compute_rms:
